@@ -68,6 +68,17 @@ pub fn nest_plain(d: usize, n: usize) -> String {
     s.push('\n');
     s
 }
+/// aliases of two anchors interleaved: per-anchor counts must be kept apart
+pub fn interleaved(k: usize) -> String {
+    let mut s = String::from("a: &A [x]\nb: &B [y, z]\nc: &C w\nseq:\n");
+    for i in 0..k {
+        s.push_str(if i % 2 == 0 { "  - *B\n" } else { "  - *A\n" });
+        if i % 3 == 2 {
+            s.push_str("  - *C\n");
+        }
+    }
+    s
+}
 pub fn wide_merge(n: usize) -> String {
     let mut s = String::new();
     for i in 0..n {
@@ -160,6 +171,25 @@ pub fn run(ctx: &mut Ctx) {
     for (d, n) in [(1usize, 5usize), (2, 5), (3, 10), (5, 20), (8, 30)] {
         family.push((format!("nest({d},{n})"), nest(d, n)));
     }
+    for k in [3usize, 5, 8, 13] {
+        family.push((format!("interleaved({k})"), interleaved(k)));
+    }
+    // generated documents with anchors and aliases (the same generator as C02)
+    {
+        let mut g = ctx.rng.fork();
+        let mut n = 0;
+        while n < (if quick { 120 } else { 1500 }) {
+            let mut cfg = crate::docgen::GenCfg::default_for(if quick { 14 } else { 26 });
+            cfg.merges = false;
+            cfg.dup_keys = false;
+            let d = crate::docgen::gen_doc(&mut g, &cfg);
+            if !d.has_alias() {
+                continue;
+            }
+            n += 1;
+            family.push((format!("generated#{n}"), crate::docgen::render_doc(&d)));
+        }
+    }
     for (name, text) in &family {
         let Some((raw, replayed, max_uses)) = expansion(text) else {
             ctx.skipped += 1;
@@ -192,7 +222,42 @@ pub fn run(ctx: &mut Ctx) {
             oracle(ctx, name, label, text, &o, &r, raw, replayed, max_uses);
         }
     }
+    iterator_recovery(ctx);
     memory(ctx);
+}
+
+/// The alias counters are per document also on the iterator's recovery path: a document that
+/// replays events and then fails must not eat into the next document's allowance.
+fn iterator_recovery(ctx: &mut Ctx) {
+    #[derive(serde::Deserialize, Debug)]
+    #[allow(dead_code)]
+    struct R {
+        v: Vec<Vec<i32>>,
+    }
+    let good = "base: &b [1, 2, 3]\nv: [*b, *b]\n"; // replays 2 x 5 events
+    let bad = "base: &b [1, 2, 3]\nv: [*b, *b, oops]\n";
+    for (limit_total, limit_anchor) in [(10usize, usize::MAX), (1_000_000, 2)] {
+        for stream in [format!("---\n{bad}---\n{good}"), format!("---\n{good}---\n{bad}---\n{good}---\n{good}")] {
+            ctx.direct_evaluations += 1;
+            #[allow(deprecated)]
+            let mut o = serde_saphyr::Options::default();
+            #[allow(deprecated)]
+            {
+                o.with_snippet = false;
+                o.alias_limits.max_total_replayed_events = limit_total;
+                o.alias_limits.max_alias_expansions_per_anchor = limit_anchor;
+            }
+            let mut cur = std::io::Cursor::new(stream.as_bytes().to_vec());
+            let items: Vec<String> = serde_saphyr::read_with_options::<_, R>(&mut cur, o).take(10)
+                .map(|r| match r { Ok(_) => "Ok".to_string(), Err(e) => crate::coq::variant_name(&e) }).collect();
+            let want: Vec<bool> = stream.split("---\n").skip(1).map(|d| d == good).collect();
+            let ok = items.len() == want.len() && items.iter().zip(&want).all(|(i, w)| (i == "Ok") == *w);
+            if !ok {
+                ctx.fail("limit-over-enforced", format!("read with alias limits (total {limit_total}, per anchor {limit_anchor}): items {items:?}, documents that fit their own limits: {want:?}"),
+                    json!({"kind": "iterator", "text": stream, "total": limit_total, "per_anchor": limit_anchor}));
+            }
+        }
+    }
 }
 
 #[allow(clippy::too_many_arguments)]
